@@ -146,6 +146,16 @@ const TAGS: &[&str] = &[
     "<text>a<!-- c -->b{{ a }}<!---->{{ b }}</text>",
     "<view a b=\"\" c=\"{{ '' }}\" d=\"{{ a }}\" e=\" \"/>",
     "<view extra-attr:e=\"x\" title=\"{{ a }}\"/>",
+    "<view title='say \"hi\" {{ a }}' alt=\"it's {{ b }}\" data-q='\"' data-r=\"'\"/>",
+    "<view title=\"&amp;lt; &amp;amp; &lt;b&gt; &#38;quot;\">&amp;lt;{{ a }}&amp;amp;</view>",
+    "<view title=\"{{ 'a\"b' + a }}\" alt='{{ \"c\\'d\" + b }}'>{{ '<' + a + '>' + \"&amp;\" }}</view>",
+    "<text>{ {{ a }} } {{ '{{' }} {{ '}}' + b }} }} {</text>",
+    "<view title=\"line1\nline2\t{{ a }}\">x\ty</view>",
+    "<text>é{{ 'ü' + a }}漢字{{ b }}😀{{ '😀' }}</text><view data-é=\"{{ a }}\" title=\"ñ\"/>",
+    "<text>{{ _$0 }}:{{ _$1 + a }}</text><view wx:for=\"{{ l2 }}\">{{ _$0 }}{{ item }}</view>",
+    "<view data:aB1C=\"{{ a }}\" data-x-1-y=\"{{ b }}\" mark:URLValue=\"{{ c }}\" mark:a1-b2=\"{{ d }}\" data-a--b=\"1\"/>",
+    "<input model:my-value=\"{{ a }}\" model:x1-y=\"{{ b }}\" change:my-prop=\"{{ w.f }}\"/><wxs module=\"w\">exports.f = function(){}</wxs>",
+    "<view bind:my-event=\"h1\" catch:Tap=\"h2\" bindTouch-start=\"h1\" capture-bind:a:b=\"h2\"/>",
     "<wxs module=\"w\">exports.f = function(x){ return x < 1 ? '<a' : '{{' + x }</wxs><text>{{ w.f(a) }}</text>",
     "<view wx:for=\"{{ list }}\" wx:key=\"k\" bind:tap=\"h1\" data-i=\"{{ index }}\" mark:k=\"{{ item.k }}\" class=\"c{{ index }}\">{{ item.v }}</view>",
     "<block wx:for=\"{{ list }}\"><block wx:if=\"{{ item.v }}\"><text>{{ item.v }}</text></block><block wx:else><text>none{{ index }}</text></block></block>",
